@@ -270,4 +270,19 @@ def bpModel (S A : List Nat) (ddn : List DNode) (hk : Basis) : BasisM :=
   let b := AITB.Factored.backProject (toGraph S A ddn) (toT ddn) ⟨hk.tag, hk.vals⟩
   ⟨b.tag, b.atag, b.vals.flatten⟩
 
+/-- rows of a row-major value list: `k` rows of `n` entries -/
+def chunkN (n : Nat) : Nat → List Rat → List (List Rat)
+  | 0, _ => []
+  | k+1, l => l.take n :: chunkN n k (l.drop n)
+
+/-- a parsed BasisMatrix (row-major values) as C14's `BM` (list of rows) -/
+def toBM (S A : List Nat) (b : BasisM) : BM := ⟨b.tag, b.atag, chunkN (spacePartial b.atag A) (spacePartial b.tag S) b.vals⟩
+def ofBM (b : BM) : BasisM := ⟨b.tag, b.atag, b.vals.flatten⟩
+def toBF (hk : Basis) : BF := ⟨hk.tag, hk.vals⟩
+
+/-- the Q-function `LinearProgramming::operator()` returns, as the code computes it from the weights `v` it got from the LP:
+    `g = backProject(T, h);  g *= discount * v;  plusEqual(S, A, g, R)`  (C14's models of the three library routines) -/
+def qModel (S A : List Nat) (ddn : List DNode) (γ : Rat) (h : List Basis) (R : List BasisM) (v : List Rat) : FM :=
+  fmPlusEqualFM S A (fmScaleW (v.map (γ * ·)) (backProjectFV (toGraph S A ddn) (toT ddn) (h.map toBF))) (R.map (toBM S A))
+
 end AITB.FLP
